@@ -157,12 +157,14 @@ RCAlpha == <<
   <<V("x"), L(" "), VB("in_newline"), E(" "), V("y"), L(">"), V("out")>>,            \* 2 $x ${in_newline}$ $y>$out
   <<L("@h@ "), V("description"), L(" "), V("z")>>,                                   \* 3 @h@ $description $z     rule variable reads rule variable
   <<VB("x"), E(":"), E("$"), E(" "), V("out"), L(".d"), K, V("y")>>,                 \* 4 ${x}$:$$$ $out.d$<nl>$y
-  <<VB("out"), L("<"), VB("in"), L("<"), V("depfile"), L("<"), V("rspfile")>>       \* 5 ${out}<${in}<$depfile<$rspfile
+  <<VB("out"), L("<"), VB("in"), L("<"), V("depfile"), L("<"), V("rspfile")>>,      \* 5 ${out}<${in}<$depfile<$rspfile
+  <<V("depfile"), L(" "), V("description"), L(" && fix "), V("depfile"), V("x")>>    \* 6 $depfile $description && fix $depfile$x   one rule variable read TWICE in one expansion
 >>
 RDAlpha == <<
   <<>>,                                                              \* 1 (absent)
   <<L("D "), V("out"), L(" "), V("x")>>,                             \* 2 description = D $out $x
-  <<V("command"), L("|"), V("y")>>                                   \* 3 description = $command|$y
+  <<V("command"), L("|"), V("y")>>,                                  \* 3 description = $command|$y
+  <<V("depfile"), L("+"), V("depfile"), L("+"), V("rspfile")>>       \* 4 description = $depfile+$depfile+$rspfile   read twice, one level down
 >>
 REAlpha == <<
   <<>>,                                                                                               \* 1
@@ -348,12 +350,36 @@ Next ==
 Spec == Init /\ [][Next]_vars
 
 ---------------------------------------------------------------------------
+(* Where the REFERENCE declines: ninja 1.11.1 (EdgeEnv::LookupVariable) records every rule-level variable it starts to    *)
+(* expand in `lookups_` and never removes it, so the second read of one rule variable below the top-level variable is      *)
+(* reported as "cycle in rule variables" although nothing is cyclic (the manual: rule variables are expanded each time     *)
+(* they are referenced).  This transcribes that walk for the top-level variable `command`, which is what                    *)
+(* `ninja -t commands` evaluates; on statements where it is TRUE the specification cannot be validated against the          *)
+(* reference and is compared with llbuild only.  (The variable is recorded when the RULE binds it, even if a build-level   *)
+(* or - for statements without bindings - file-level value is the one used.)                                                *)
+RECURSIVE NjWalk(_, _, _, _)
+NjWalk(tm, c, scs, st) ==
+  IF tm = <<>> \/ st.cyc THEN st
+  ELSE LET p == Head(tm) IN
+       IF p.t # "var" \/ p.s \in {"in", "in_newline", "out"} THEN NjWalk(Tail(tm), c, scs, st)
+       ELSE IF p.s \in st.seen THEN [st EXCEPT !.cyc = TRUE]
+       ELSE IF Has(c.rule.vars, p.s)
+            THEN LET st1 == [st EXCEPT !.seen = @ \cup {p.s}]
+                     st2 == IF Has(c.binds, p.s) \/ (c.binds = <<>> /\ Has(scs[c.sc].vars, p.s)) THEN st1
+                            ELSE NjWalk(Get(c.rule.vars, p.s), c, scs, st1)
+                 IN NjWalk(Tail(tm), c, scs, st2)
+            ELSE NjWalk(Tail(tm), c, scs, st)
+RefFalseCycle(c, scs) ==
+  /\ Has(c.rule.vars, "command") /\ ~Has(c.binds, "command") /\ ~(c.binds = <<>> /\ Has(scs[c.sc].vars, "command"))
+  /\ NjWalk(Get(c.rule.vars, "command"), c, scs, [seen |-> {}, cyc |-> FALSE]).cyc
+
+---------------------------------------------------------------------------
 (* What is printed for the driver *)
 Late(c)  == EvalAll(c, scopes, "manual")      \* what the rule variables would give if expanded at the END of the manifest
 Excluded == \E i \in 1..Len(cmds) : Late(cmds[i]) # cmds[i].vals          \* the case the property leaves out
 View(c) == [outs |-> c.outs, ins |-> c.ins, imps |-> c.imps, oos |-> c.oos, rule |-> c.rule.n,
             nbinds |-> Len(c.binds), vals |-> c.vals, ninja |-> EvalAll(c, scopes, "ninja"),
-            excl |-> Late(c) # c.vals, fsp |-> c.fsp, up |-> c.up, sc |-> c.sc]
+            excl |-> Late(c) # c.vals, fsp |-> c.fsp, up |-> c.up, sc |-> c.sc, twice |-> RefFalseCycle(c, scopes)]
 Expected == [bindings |-> scopes[1].vars, cmds |-> [i \in 1..Len(cmds) |-> View(cmds[i])],
              defaults |-> defaults, pools |-> pools, excluded |-> Excluded]
 Emit == (last # "exit" /\ (EmitAll \/ cmds # <<>>)) => PrintT(<<"CASE", ToJson([ast |-> files, exp |-> Expected])>>)
